@@ -191,6 +191,7 @@ type Sim struct {
 	evPending  []*eventCtx
 	helperSeen map[string]bool
 	Releases   []RelInfo
+	revDirty   bool
 
 	oracles *oracleState
 	quiet   bool // quiesce phase: no faults, deterministic
@@ -205,6 +206,13 @@ func NewSim(seed uint64, cfg *Config) *Sim {
 	s.kube = newKubeClient(s)
 	s.as = newASClient(s)
 	s.Store.Graceful = cfg.Graceful
+	s.Store.OnMutate = func(k Kind) {
+		// ControllerRevisions have no event handler in this controller: a revision
+		// written by anybody but a worker is invisible to it until the next reconcile
+		if k == KRev && (s.current == nil || s.current.rec == nil) {
+			s.revDirty = true
+		}
+	}
 	s.oracles = newOracleState()
 	s.simStart = time.Now()
 	return s
